@@ -1466,10 +1466,15 @@ LEVEL_TEXT = ('Machine-checked Coq theorems (all unbounded unless said otherwise
               'record_order (Python tuple order of the binary search file records is a total order), sorted_records (sorted() yields THE '
               'sorted permutation), bsearch_lower_bound (_binarysearch returns the lower bound for every sorted key function, unbounded), '
               'bsf_get_first / bsf_get_iff / bsf_get_min (BinarySearchFile.get finds a record iff the id is present: the first = least '
-              'record with that id, ValueError otherwise, on every sorted record list). Modelled and tied (not yet proved about): the '
-              'byte layout of the whole binary index file (magic, offsets, header, field table, fixed-width records) with '
-              'read_header()/read(), dbm as a key-value map with _pack values, and FastaIndex add / reopen / get / len / files as a state '
-              'machine over operation histories (compared with the real index after every operation, incl. the bytes of the index file). '
+              'record with that id, ValueError otherwise, on every sorted record list); FastaIndex.add (several files per call, each call '
+              'sorts its names, force or not, the same file again) / reopen / get / len / files as a state machine over ARBITRARY '
+              'operation histories in both modes: hist_invariant (by induction over the operations: registered files duplicate-free, '
+              'binary records sorted, every stored record / dbm value was produced by the scan of the file registered under its file '
+              'number, stored header = header of the registered list), reopen_same (after every history reopening -- parsing path and '
+              'file list back from the stored header -- gives the identical state), hist_get_sound (after every history, in either '
+              'mode, whatever id the index finds answers header / text / residues / every slice s[i:j] of the record with that id). '
+              'Modelled and tied, not yet proved about: the byte layout of the whole binary index file (magic, offsets, header, field '
+              'table, fixed-width records) with read_header()/read(), compared with the bytes of the real index file after every add. '
               'The model (incl. the whole-file reader and the '
               'header functions) is tied to the real code by differential testing on every run (both back ends, same object and '
               'reopened, registration against name order, call histories on the same objects, temp directories).')
